@@ -427,6 +427,23 @@ def _check_comparator(ctx, cf, paths):
                       % (bad, n, ", ".join("%s is %s" % (names[k], v) for k, v in asg.items()), got, not got))
 
 
+def _only_field_reads(fn, l):
+    """Every use of local l is a copy of one of its scalar fields (never the whole value, never a borrow)."""
+    us = uses_of_local(fn, l)
+    if not us:
+        return False
+    for u in us:
+        if u[0] != "stmt":
+            return False
+        rv = u[3]["rv"]
+        pl = None
+        if isinstance(rv.get("use"), dict):
+            pl = rv["use"].get("copy") or rv["use"].get("move")
+        if pl is None or pl["l"] != l or len(pl["p"]) != 1 or not isinstance(pl["p"][0], dict) or "f" not in pl["p"][0]:
+            return False
+    return True
+
+
 def rule_placeholders(ctx):
     facts = ctx.facts
     _FACTS[0] = facts
@@ -467,6 +484,10 @@ def rule_placeholders(ctx):
         for bi, si, s in fn.stmts(lambda s: s["k"] == "assign" and s["rv"].get("agg") == "adt" and s["rv"].get("adt") == "Match"):
             names = s["rv"]["fields"]
             if is_max(fn.expr_of_operand(s["rv"]["ops"][names.index("idx")])):
+                # the sentinel named only to compare against it (`m.idx == PLACEHOLDER.idx`) creates nothing: every use of
+                # the literal is a read of one of its fields
+                if not s["lhs"]["p"] and s["rv"].get("from_const") and _only_field_reads(fn, s["lhs"]["l"]):
+                    continue
                 sites.append((bi, si))
         for bi, si, s in field_assigns(fn, "idx", "Match"):
             if si != "term" and is_max(fn.expr_of_rvalue(s["rv"])):
@@ -594,12 +615,70 @@ def rule_clone_complete(ctx):
     r(ctx)
 
 
+def rule_stale_list_test(ctx):
+    """`run` decides how to bring the match list up to date from what the list holds (`matches.is_empty()`): rescoring
+    is chosen only when there is something to rescore.  The decision has to be taken on the list as it is when the
+    chosen pass starts: between the test and the branch that depends on it (directly, or through a flag / enum value
+    assigned under it) nothing may rewrite the list.  (reset_matches fills the list; a test taken before it sees the
+    old list and skips the rescoring of the entries it adds: they reach the snapshot with score 0.)"""
+    facts = ctx.facts
+    run = get_fn(facts, "nucleo", "worker::Worker::<T>::run")
+    tests = []
+    for bi, t in run.calls(lambda t: callee(t).rsplit("::", 1)[-1] in ("is_empty", "len")):
+        base, names = field_chain(run.expr_of_operand(t["args"][0]))
+        if names == ["matches"] and isinstance(base, tuple) and base[0] == "arg" and base[1] == 1:
+            tests.append((bi, t))
+    if not tests:
+        ctx.ok(site(run, 0), "run takes no decision on the contents of the match list")
+        return
+    muts = []
+    for bi, t in run.calls():
+        for a in t.get("args", []):
+            e = run.expr_of_operand(a)
+            if e[0] == "ref" and len(e) > 2 and e[2]:
+                base, names = field_chain(e)
+                if isinstance(base, tuple) and base[0] == "arg" and base[1] == 1 and (names == [] or names[:1] == ["matches"]):
+                    muts.append(bi)
+    n = 0
+    for abi, at in tests:
+        cid = (abi, at["dest"]["l"])
+        after = run.reach_from(at["target"]) if at.get("target") is not None else set()
+
+        def mentions(e):
+            return any(x[0] == "call" and len(x) > 4 and x[4] == cid for x in walk(e))
+        for sbi in sorted(run.live):
+            st = run.blocks[sbi]["term"]
+            if st["k"] != "switch" or sbi not in after:
+                continue
+            e = run.expr_of_operand(st["discr"])
+            dep = mentions(e)
+            if not dep:
+                locs = [x[1] for x in walk(e) if x[0] == "local"]
+                for l in locs:
+                    for dbi, dsi, kind, payload in run.defs.get(l, []):
+                        if dbi >= 0 and any(mentions(g[3]) for g in guards_of(run, dbi)):
+                            dep = True
+            if not dep:
+                continue
+            n += 1
+            between = [m for m in muts if m in after and m != abi and sbi in run.reach_from(m) and m != sbi]
+            if between:
+                ctx.violation("worker::Worker::<T>::run|stale-list-test|%d" % n, site(run, between[0]),
+                              "the match list is rewritten (%s) between the test of its contents at %s and the branch that depends on that test: the pass is chosen for the old list, "
+                              "the entries added in between are neither rescored nor removed" % (callee(run.blocks[between[0]]["term"]).rsplit("::", 1)[-1], site(run, abi)))
+            else:
+                ctx.ok(site(run, sbi), "decision on the match list's contents taken on the list as it is when the branch runs")
+    if n == 0:
+        ctx.ok(site(run, 0), "no branch of run depends on a test of the match list")
+
+
 def rules(ctx):
     ctx.run_rule("C06.clone-complete", rule_clone_complete)
     ctx.run_rule("C06.snapshot-fields", rule_snapshot_fields)
     ctx.run_rule("C06.unchecked-feed", rule_unchecked_feed)
     ctx.run_rule("C06.inflight-order", rule_inflight_order)
     ctx.run_rule("C06.placeholders", rule_placeholders)
+    ctx.run_rule("C06.stale-list-test", rule_stale_list_test)
     ctx.run_rule("C06.update-guard", rule_update_guard)
     ctx.run_rule("C06.score-source", rule_score_source)
     ctx.run_rule("C06.borrow-witness", rule_borrow_witness)
